@@ -504,12 +504,14 @@ where
             let head_ref = visitor.mark_branch_point();
             let exit_ref = visitor.mark_branch_point();
             let break_label = Some(exit_ref);
+            // case clauses share one scope, which ends with the switch statement
+            let mut locals = locals.clone();
             let bodies: Vec<_> = body_statements
                 .iter()
                 .filter_map(|nodes| {
                     walk_stmt_nodes(
                         ctx,
-                        locals,
+                        &mut locals,
                         break_label,
                         nodes,
                         source,
